@@ -55,6 +55,7 @@ func QuietKlog() {
 	_ = fs.Set("alsologtostderr", "false")
 	_ = fs.Set("stderrthreshold", "FATAL")
 	klog.SetOutput(io.Discard)
+	klog.StopFlushDaemon() // a background goroutine that takes klog's lock: keep it out of the quiescence picture
 }
 
 // ---------------------------------------------------------------- scenario
@@ -635,8 +636,11 @@ func allStacks() string {
 	}
 }
 
+var lastDump string
+
 func workerStates() (live, blocked int) {
-	for _, blk := range strings.Split(allStacks(), "\n\n") {
+	lastDump = allStacks()
+	for _, blk := range strings.Split(lastDump, "\n\n") {
 		if !strings.Contains(blk, "c16kit.workerMain(") {
 			continue
 		}
@@ -655,8 +659,17 @@ func workerStates() (live, blocked int) {
 // settle waits until no started worker can make progress on its own: each is parked in the gate,
 // finished, or blocked on a lock/channel of the code under test. It never decides a verdict: if the
 // workers do not settle within the (generous) deadline the whole run is abandoned as inconclusive.
+//
+// Fast path (code under test does not hold a lock across the API call): parked + finished == started,
+// read from the gate's own counters. Slow path: a stop-the-world goroutine snapshot in which every live
+// worker is in a wait state; because a worker can also wait for a moment on a lock held by a goroutine
+// that is not a worker (klog, the runtime), the picture must be confirmed by settleConfirm consecutive
+// identical snapshots taken some time apart before it is believed.
+const settleConfirm = 3
+
 func (s *sched) settle() {
 	deadline := time.Now().Add(60 * time.Second)
+	confirmed, lastParked, lastFin, lastLive := 0, -1, -1, -1
 	for spin := 0; ; spin++ {
 		s.g.mu.Lock()
 		parkedN, fin := len(s.g.parked), s.g.finished
@@ -669,24 +682,32 @@ func (s *sched) settle() {
 			continue
 		}
 		live, blocked := workerStates()
+		ok := false
 		if live == blocked {
-			// every live worker waits for somebody else; re-read the gate to make sure the picture is stable
+			// every live worker waits for somebody else; re-read the gate to make sure the picture is consistent
 			s.g.mu.Lock()
-			stable := len(s.g.parked) == parkedN && s.g.finished == fin && live == s.started-fin
+			ok = len(s.g.parked) == parkedN && s.g.finished == fin && live == s.started-fin
 			s.g.mu.Unlock()
-			if stable {
-				if live > parkedN {
-					s.sawBlocked = true
-				}
-				return
+		}
+		if ok && parkedN == lastParked && fin == lastFin && live == lastLive {
+			confirmed++
+		} else if ok {
+			confirmed, lastParked, lastFin, lastLive = 1, parkedN, fin, live
+		} else {
+			confirmed, lastParked, lastFin, lastLive = 0, -1, -1, -1
+		}
+		if confirmed >= settleConfirm {
+			if live > parkedN {
+				s.sawBlocked = true
 			}
+			return
 		}
 		if time.Now().After(deadline) {
-			fmt.Fprintf(os.Stderr, "VERIF-INCONCLUSIVE C16: workers did not settle within 60s (started=%d parked=%d finished=%d live=%d blocked=%d); log=%v\n",
-				s.started, parkedN, fin, live, blocked, s.log)
+			fmt.Fprintf(os.Stderr, "VERIF-INCONCLUSIVE C16: workers did not settle within 60s (started=%d parked=%d finished=%d live=%d blocked=%d); log=%v\n%s\n",
+				s.started, parkedN, fin, live, blocked, s.log, lastDump)
 			os.Exit(2)
 		}
-		time.Sleep(20 * time.Microsecond)
+		time.Sleep(100 * time.Microsecond)
 	}
 }
 
@@ -769,7 +790,7 @@ func RunConcurrent(t *rapid.T, c *vk.Case, mk Factory, hasTotal, parallel bool) 
 		}
 		return fmt.Sprintf("schedule=%v requests=[%s]", s.log, strings.Join(rs, "; "))
 	}
-	contended, maxInFlight := false, 0
+	contended, maxInFlight, stalls := false, 0, 0
 	for {
 		s.settle()
 		g.mu.Lock()
@@ -792,8 +813,15 @@ func RunConcurrent(t *rapid.T, c *vk.Case, mk Factory, hasTotal, parallel bool) 
 		if canStart {
 			nOpt++
 		}
+		if nOpt == 0 && stalls < 2000 {
+			// nothing to start, nothing to answer, yet not everybody has finished: the snapshot was taken while
+			// a worker was held up for a moment by something that is not a worker. Look again (bounded).
+			stalls++
+			time.Sleep(time.Millisecond)
+			continue
+		}
 		if nOpt == 0 {
-			fmt.Fprintf(os.Stderr, "VERIF-INCONCLUSIVE C16: %d workers blocked with no API call in flight (deadlock in the code under test?); log=%v\n%s\n", s.started-fin, s.log, allStacks())
+			fmt.Fprintf(os.Stderr, "VERIF-INCONCLUSIVE C16: %d workers blocked with no API call in flight (deadlock in the code under test?); log=%v\n==== decision-time snapshot\n%s\n==== now\n%s\n", s.started-fin, s.log, lastDump, allStacks())
 			os.Exit(2)
 		}
 		batch := 1
